@@ -59,11 +59,15 @@ class Direction(BaseEnum):
         # comparison needs a tolerance, because the angles are computed
         # from coordinates that may carry floating point noise.
 
+        # The difference of two angles may also wrap around the branch
+        # cut of atan2 (an end angle of -PI for a start angle of PI): it
+        # is then a full turn away from zero and needs a second step.
+
         if self is Direction.CLOCKWISE:
-            if angle > -ANGLE_TOLERANCE:
+            while angle > -ANGLE_TOLERANCE:
                 angle -= 2 * math.pi
         else:
-            if angle < ANGLE_TOLERANCE:
+            while angle < ANGLE_TOLERANCE:
                 angle += 2 * math.pi
 
         return angle
